@@ -1,11 +1,23 @@
 #!/bin/sh
-# Build the framework from files on disk only (offline).
-set -e
+# Build the framework from files on disk only (offline). Builds what checks/*.json reference;
+# every check rebuilds what it needs anyway, so a failure here is reported but not fatal.
 cd "$(dirname "$0")"
 export GOFLAGS=-mod=mod GOPROXY=off GOSUMDB=off GOTOOLCHAIN=local
 mkdir -p work replays evidence harness/bin tools/extract/bin
-(cd tools/extract && go build -o bin/extract . && ./bin/extract /repo ../../lean/KavaVerif/Generated >/dev/null || true)
-(cd lean && lake build && for i in 01 02 03 04 05 06 07 08 09 10 11 12 13 14 15 16 17 18 19 20; do lake build kv_c$i; done)
+(cd tools/extract && go build -o bin/extract . && ./bin/extract /repo ../../lean/KavaVerif/Generated >/dev/null)
 cp /repo/go.sum harness/go.sum
-(cd harness && for d in cmd/*/; do n=$(basename "$d"); go build -tags verif -o "bin/$n" "./cmd/$n" || exit 1; done)
-echo "setup ok"
+python3 - <<'PY'
+import json, glob, subprocess, os
+mods, exes, cmds = set(), set(), set()
+for f in sorted(glob.glob('checks/*.json')):
+    c = json.load(open(f))
+    if c.get('not_applicable'): continue
+    mods.add(c['props_module']); exes.add(c.get('driver', 'kv_' + c['id'].lower()))
+    cmds.update(c.get('harness', []))
+r = subprocess.run(['lake', 'build'] + sorted(mods) + sorted(exes), cwd='lean')
+print('lean build rc', r.returncode)
+for h in sorted(cmds):
+    r = subprocess.run(['go', 'build', '-tags', 'verif', '-o', 'bin/' + h, './cmd/' + h], cwd='harness')
+    print('harness', h, 'rc', r.returncode)
+PY
+echo "setup done"
